@@ -18,6 +18,30 @@ CLAIMED = {
    text="Proof that the in-tree HMAC wrapper computes HMAC(key, concatenation of the inputs) truncated to the leading tagSize bytes and verifies exactly by full equality, and that parameter validation accepts exactly the documented sizes; digest-size and hash-function tables match the documented values.",
    note="crypto/hmac and hash.Hash are trusted (ghost-state contracts in specs/stdlib.gvc); ComputeMAC/VerifyMAC are proved for the argument counts used in the tree (1 and 3 parts), which is a call-site obligation for every caller. AES-CMAC and the MAC factories: see evidence for what is covered in this snapshot.",
    ref="DESIGN.md section 5 C04"),
+ "C08": dict(
+   text="Proof that the AES-SIV code equals RFC 5297 for every plaintext/associated-data length: multiplyByX is doubling in GF(2^128) (bit-vector proof), S2V (both the xorend branch and the dbl/pad branch, incl. the pad byte position), the CTR IV with bits 63 and 31 cleared, Encrypt = S2V || CTR and Decrypt accepts iff all 16 SIV bytes match and returns no plaintext otherwise; AES-CMAC against an RFC 4493 transcription (recursive CBC-MAC spec, loop invariant). AES-KWP: wrappingSize, accepted size range of Wrap/Unwrap, AIV prefix, encoded length and zero-padding checks of Unwrap are an if-and-only-if over the output of the inverse permutation; no panic for any input.",
+   note="AES, CTR mode and the AES block permutation are trusted library contracts. CMAC.XOREndAndCompute is an assumed (unverified) contract; the KWP permutation W / invertW is named by a definitional postcondition, its step-by-step conformance to RFC 5649 is not proved (listed in the evidence). Unforgeability is a cryptographic assumption.",
+   ref="DESIGN.md section 5 C08"),
+ "C09": dict(
+   text="Proof that the validator decision functions are equivalences with reference predicates taken from the property statement: validateFieldPresence (all 8 rows), validateTimestamps (exp/nbf/iat against now +- skew with exact boundaries, AllowMissingExpiration, ExpectIssuedInThePast, FixedNow), validateTypeHeader, validateIssuer.",
+   note="time.Time arithmetic and the RawJWT accessors (HasExpiration/ExpiresAt/...) are assumed contracts (abstract view of the token); JSON/base64/structpb, header validation, signature-before-parse order and the JWK converter are not covered in this snapshot (see evidence and DESIGN.md section 10).",
+   ref="DESIGN.md section 5 C09"),
+ "C13": dict(
+   text="Proof that hasSecrets(ks) is true iff some key of the keyset (at any position) has UNKNOWN, SYMMETRIC or ASYMMETRIC_PRIVATE material (or a nil key / key data), for every keyset.",
+   note="Covers the decision function only; the dominance of the guard in NewHandleWithNoSecrets/WriteWithNoSecrets, the footprints of KeysetInfo/String and the encrypted writers are not under contract in this snapshot.",
+   ref="DESIGN.md section 5 C13"),
+ "C14": dict(
+   text="Proof that keyset.Validate returns nil iff the keyset is non-nil, non-empty, every key is valid (non-nil, has key data, known prefix type and status), key IDs are pairwise distinct, and the primary ID names an ENABLED key (loop invariant over the processed prefix with the seen-ID set, both directions); validateKey iff; minimum-strength validators (HMAC, AES key size, CMAC, HKDF-PRF, HMAC-PRF parameters) as equivalences.",
+   note="Key parsers (ParseKey of each key type) and primitive constructors are not swept for panics in this snapshot; protobuf and JSON parsing are outside.",
+   ref="DESIGN.md section 5 C14"),
+ "C15": dict(
+   text="Proof that HMAC-PRF, AES-CMAC-PRF and HKDF-PRF return exactly the leading n bytes of HMAC(key,x) / CMAC(key,x) / the RFC 5869 stream for (key, salt, info=x), fail iff n exceeds the algorithm maximum, do not modify any pre-existing memory (hence are deterministic functions of key and input: prefix consistency follows because the postcondition is a prefix of one fixed string), and that subtle.ComputeHKDF returns RFC 5869 output (empty salt = HashLen zeros) iff its parameters are valid.",
+   note="crypto/hmac, hash.Hash, x/crypto/hkdf and io.ReadFull/ReadAtLeast are trusted ghost-state contracts; the PRF-set factory (IDs mirror enabled keys) is not under contract in this snapshot.",
+   ref="DESIGN.md section 5 C15"),
+ "C18": dict(
+   text="Sufficient discipline for schedule-independence, proved per function: every primitive method under contract has `assigns nothing`, and its frame obligations prove that no execution writes any memory that existed before the call - in particular no field, array or buffer reachable from the shared receiver; all per-call state is freshly allocated. Calls that write nothing shared cannot race or observe each other.",
+   note="The step from 'no call writes shared memory' to 'every interleaving returns what the call returns alone' is a standard non-interference argument that is NOT machine-checked; no schedule is explored and this is not race detection. Registries (sync.Map / mutex-guarded maps) and factories are not covered. Library objects (cipher.Block, cipher.AEAD) are trusted to be safe for concurrent use.",
+   ref="DESIGN.md section 5 C18"),
  "C10": dict(
    text="Proof (for all inputs, no bound) that every scalar routine of internal/signature/mldsa/algebra.go equals the FIPS 204 algorithm transcribed in specs/fips204.gvc on all of Z_q: reduceOnce, add, sub, neg, mul (Barrett), power2Round, scalePower2, divBy2Gamma2, decompose, highBits, lowBits, makeHint, useHint, centeredAbs, centeredMax. Obligations are generated from the current source on every run.",
    note="Trusted: crypto/subtle.ConstantTime{Select,LessOrEq,Eq} contracts (specs/stdlib.gvc, incl. their documented operand ranges as call-site obligations); the transcription of FIPS 204 Alg. 35-40 in specs/fips204.gvc; gvc and the solvers. Not covered: SHAKE, sampling, NTT as polynomial evaluation, signing/verification control flow (see DESIGN.md section 5-C10 and the evidence file).",
